@@ -135,7 +135,42 @@ def make_traces(prop, tier, seed, workdir, drive):
     s3 = os.path.join(workdir, "s3.ndjson")
     stats["random"] = drive(["random", "-seed", str(seed), "-n", str(n), "-steps", str(steps), "-out", s3])
     traces.append(s3)
+    s2 = os.path.join(workdir, "s2.ndjson")
+    stats["tlc_behaviours"] = tlc_behaviours(seed, 150 if tier == "quick" else 1500, 80, workdir, drive, s2)
+    traces.append(s2)
     return traces, stats
+
+
+def tlc_behaviours(seed, num, depth, workdir, drive, out):
+    """S2: behaviours of the specification generated by TLC, replayed into the real code"""
+    import glob, shutil, subprocess, re
+    import tlaval
+    d = os.path.join(workdir, "sim")
+    os.makedirs(os.path.join(d, "beh"), exist_ok=True)
+    spec = os.path.join(os.path.dirname(os.path.dirname(os.path.abspath(__file__))), "spec")
+    for f in glob.glob(os.path.join(spec, "*.tla")) + [os.path.join(spec, "MC_sim.cfg")]:
+        shutil.copy(f, d)
+    jar = "/opt/veriftools/tla/tla2tools.jar:/opt/veriftools/tla/CommunityModules-deps.jar"
+    cmd = ["java", "-XX:+UseParallelGC", "-Xmx4g", "-cp", jar, "tlc2.TLC", "-workers", "1", "-simulate",
+           "file=beh/b,num=%d" % num, "-depth", str(depth), "-seed", str(seed), "-metadir", os.path.join(d, "meta"),
+           "-config", "MC_sim.cfg", "MC_sim.tla"]
+    r = subprocess.run(cmd, cwd=d, stdout=subprocess.PIPE, stderr=subprocess.STDOUT, text=True, timeout=1800)
+    m = re.search(r'<<"RESET", "(.*)">>', r.stdout)
+    if not m:
+        raise RuntimeError("TLC simulation produced no behaviours:\n" + r.stdout[-3000:])
+    reset = json.loads(bytes(m.group(1), "utf-8").decode("unicode_escape"))
+    hists = []
+    for i, f in enumerate(sorted(glob.glob(os.path.join(d, "beh", "b_*")))):
+        evs = tlaval.behaviour_events(f)
+        rs = dict(reset, tag="tlc-%d-%d" % (seed, i))
+        hists.append({"reset": rs, "ops": [e for e in evs[1:]]})
+    hp = os.path.join(workdir, "s2-histories.json")
+    with open(hp, "w") as f:
+        json.dump(hists, f)
+    st = drive(["replay", "-in", hp, "-out", out])
+    st["behaviours"] = len(hists)
+    shutil.rmtree(d, ignore_errors=True)
+    return st
 
 
 # ---------------------------------------------------------------------------------------------
